@@ -3,7 +3,7 @@
 # confirm + run quick; log to /var/tmp/seedlog_<id>.txt
 cd "$(dirname "$0")/.."
 for name in "$@"; do
-  c="${name##*-}"; round="01"; case "$name" in r2-*) round="02";; r3-*) round="03";; r4-*) round="04";; r5-*) round="05";; r6-*) round="06";; r7-*) round="07";; esac
+  c="${name##*-}"; round="01"; case "$name" in r2-*) round="02";; r3-*) round="03";; r4-*) round="04";; r5-*) round="05";; r6-*) round="06";; r7-*) round="07";; r8-*) round="08";; esac
   id="s${round}-$c"; [ -n "${SEED_ID:-}" ] && id="$SEED_ID"
   python3 tools/seeded.py confirm $id $c /tmp/seed-$name-out > /var/tmp/seedlog_$id.txt 2>&1
   if grep -q '"confirmed": true' /var/tmp/seedlog_$id.txt; then
